@@ -356,6 +356,7 @@ def normalise_locals(relpath: str, tree: ast.Module) -> int:
                 if want is not None:
                     if (key + "::iters") in ref:
                         from . import canon2
+                        canon2.with_tail_temps(st, want)
                         canon2.unmerge_aliases(st, want)
                         canon2.loop_shapes(st, ref[key + "::iters"], ref.get(key + "::booltgt", []))
                         canon2.while_shapes(st, ref.get(key + "::while", []))
